@@ -590,14 +590,21 @@ package keeper
 //@ ghost lastPrevSetPower int
 //@ ghost prevDelN int
 //@ ghost lastPrevDelAddr Bytes
+// the reported-set index is written / cleared in the module's store under the node's key
+// (prefix 0x31 ++ address) and nowhere else; the calls are also recorded as events
 //@ func (Keeper).SetPrevStateValPower
-//@   trusted call event only: records the (address, power) pair written to the reported-set index (store + codec not modelled)
-//@   modifies prevSetN, lastPrevSetAddr, lastPrevSetPower
-//@   ensures prevSetN == old(prevSetN) + 1 && lastPrevSetAddr == bytes(addr) && lastPrevSetPower == power
+//@   props C22
+//@   modifies kvHas, kvVal
+//@   logs prevSetN == old(prevSetN) + 1
+//@   logs lastPrevSetAddr == bytes(addr)
+//@   logs lastPrevSetPower == power
+//@   ensures [written-under-node-key] kvHas[ctxStore(ctx, k.storeKey)] == old(kvHas[ctxStore(ctx, k.storeKey)])[cat(bytes(global(types.PrevStateValidatorsPowerKey)), old(bytes(addr))) := true]
 //@ func (Keeper).DeletePrevStateValPower
-//@   trusted call event only: records the address removed from the reported-set index
-//@   modifies prevDelN, lastPrevDelAddr
-//@   ensures prevDelN == old(prevDelN) + 1 && lastPrevDelAddr == bytes(addr)
+//@   props C22
+//@   modifies kvHas, kvVal
+//@   logs prevDelN == old(prevDelN) + 1
+//@   logs lastPrevDelAddr == bytes(addr)
+//@   ensures [cleared-under-node-key] kvHas[ctxStore(ctx, k.storeKey)] == old(kvHas[ctxStore(ctx, k.storeKey)])[cat(bytes(global(types.PrevStateValidatorsPowerKey)), old(bytes(addr))) := false]
 //@ func (Keeper).SetPrevStateValidatorsPower
 //@   trusted KV-store effect only: no Go object visible to the caller is modified
 //@ func (Keeper).getPrevStatePowerMap
